@@ -11,8 +11,8 @@ Ltac step_peek :=
       destruct (m_peek_cons r b l H) as (r' & E & Ha & Hp & Hk);
       rewrite (bind_ok _ _ _ _ _ E); clear E
   | H : at_bytes ?r [] |- context [bind peek _ ?r] =>
-      let r' := fresh "r" in let E := fresh "E" in let Ha := fresh "Ha" in
-      destruct (m_peek_nil r H) as (r' & E & Ha);
+      let r' := fresh "r" in let E := fresh "E" in let Ha := fresh "Ha" in let Hk := fresh "Hk" in
+      destruct (m_peek_nil r H) as (r' & E & Ha & Hk);
       rewrite (bind_ok _ _ _ _ _ E); clear E
   end.
 Ltac step_peek0 :=
@@ -23,8 +23,8 @@ Ltac step_peek0 :=
       destruct (m_peek_or_null_cons r b l H) as (r' & E & Ha & Hp & Hk);
       rewrite (bind_ok _ _ _ _ _ E); clear E
   | H : at_bytes ?r [] |- context [bind peek_or_null _ ?r] =>
-      let r' := fresh "r" in let E := fresh "E" in let Ha := fresh "Ha" in
-      destruct (m_peek_or_null_nil r H) as (r' & E & Ha);
+      let r' := fresh "r" in let E := fresh "E" in let Ha := fresh "Ha" in let Hk := fresh "Hk" in
+      destruct (m_peek_or_null_nil r H) as (r' & E & Ha & Hk);
       rewrite (bind_ok _ _ _ _ _ E); clear E
   end.
 Ltac step_next :=
@@ -34,8 +34,8 @@ Ltac step_next :=
       destruct (m_next_cons r b l H) as (r' & E & Ha & Hk);
       rewrite (bind_ok _ _ _ _ _ E); clear E
   | H : at_bytes ?r [] |- context [bind next_char _ ?r] =>
-      let r' := fresh "r" in let E := fresh "E" in let Ha := fresh "Ha" in
-      destruct (m_next_nil r H) as (r' & E & Ha);
+      let r' := fresh "r" in let E := fresh "E" in let Ha := fresh "Ha" in let Hk := fresh "Hk" in
+      destruct (m_next_nil r H) as (r' & E & Ha & Hk);
       rewrite (bind_ok _ _ _ _ _ E); clear E
   end.
 Ltac step_eat :=
@@ -51,6 +51,41 @@ Ltac step := first [step_eat | step_peek | step_peek0 | step_next].
 Definition is_ws (c : N) : bool := memb c [32; 10; 9; 13; 12].
 Definition starts_datum (c : N) : Prop := is_ws c = false /\ c <> 59.
 
+Lemma ws_here fuel r b l : (1 <= fuel)%nat -> at_bytes r (b :: l) -> starts_datum b ->
+  exists r', Parser.parse_whitespace fuel r = (Ok (Some b), r') /\ at_bytes r' (b :: l) /\ peeked r' /\ rk r' = rk r.
+Proof.
+  intros Hf Ha [Hw Hc]. destruct fuel as [|f]; [lia|]. cbn [Parser.parse_whitespace].
+  step. assert (E59 : (b =? 59) = false) by lia. rewrite E59.
+  unfold is_ws in Hw. rewrite Hw. exists r0. unfold ret. auto.
+Qed.
+
+Lemma ws_space fuel r b l : (2 <= fuel)%nat -> at_bytes r (32 :: b :: l) -> starts_datum b ->
+  exists r', Parser.parse_whitespace fuel r = (Ok (Some b), r') /\ at_bytes r' (b :: l) /\ peeked r' /\ rk r' = rk r.
+Proof.
+  intros Hf Ha Hb. destruct fuel as [|f]; [lia|]. cbn [Parser.parse_whitespace].
+  step. change (32 =? 59) with false. change (memb 32 [32; 10; 9; 13; 12]) with true. cbv iota.
+  step. destruct (ws_here f r1 b l) as (r2 & E & Ha2 & Hp2 & Hk2); [lia|exact Ha1|exact Hb|].
+  exists r2. rewrite E. repeat split; auto; congruence.
+Qed.
+
+Lemma ws_eof fuel r : (1 <= fuel)%nat -> at_bytes r [] ->
+  exists r', Parser.parse_whitespace fuel r = (Ok None, r') /\ at_bytes r' [].
+Proof.
+  intros Hf Ha. destruct fuel as [|f]; [lia|]. cbn [Parser.parse_whitespace]. step.
+  exists r0. unfold ret. auto.
+Qed.
+
+(* expect_ident on matching text *)
+Lemma expect_ident_ok ident : forall r rest, at_bytes r (ident ++ rest) ->
+  exists r', Parser.expect_ident ident r = (Ok tt, r') /\ at_bytes r' rest /\ rk r' = rk r.
+Proof.
+  induction ident as [|c ident IH]; intros r rest Ha; cbn [expect_ident app] in *.
+  - exists r. unfold ret. auto.
+  - step. rewrite N.eqb_refl. destruct (IH r0 rest Ha0) as (r1 & E & Ha1 & Hk1).
+    exists r1. rewrite E. repeat split; auto; congruence.
+Qed.
+
+
 Section Tokens.
   Variable alpha : N -> bool.
   Variable fast : bool.
@@ -58,40 +93,6 @@ Section Tokens.
   Local Notation ro := default_ro.
   Local Notation parse_whitespace := (parse_whitespace).
   Local Notation parse_token := (parse_token ro alpha fast std_parse).
-
-  Lemma ws_here fuel r b l : (1 <= fuel)%nat -> at_bytes r (b :: l) -> starts_datum b ->
-    exists r', parse_whitespace fuel r = (Ok (Some b), r') /\ at_bytes r' (b :: l) /\ peeked r' /\ rk r' = rk r.
-  Proof.
-    intros Hf Ha [Hw Hc]. destruct fuel as [|f]; [lia|]. cbn [Parser.parse_whitespace].
-    step. assert (E59 : (b =? 59) = false) by lia. rewrite E59.
-    unfold is_ws in Hw. rewrite Hw. exists r0. unfold ret. auto.
-  Qed.
-
-  Lemma ws_space fuel r b l : (2 <= fuel)%nat -> at_bytes r (32 :: b :: l) -> starts_datum b ->
-    exists r', parse_whitespace fuel r = (Ok (Some b), r') /\ at_bytes r' (b :: l) /\ peeked r' /\ rk r' = rk r.
-  Proof.
-    intros Hf Ha Hb. destruct fuel as [|f]; [lia|]. cbn [Parser.parse_whitespace].
-    step. change (32 =? 59) with false. change (memb 32 [32; 10; 9; 13; 12]) with true. cbv iota.
-    step. destruct (ws_here f r1 b l) as (r2 & E & Ha2 & Hp2 & Hk2); [lia|exact Ha1|exact Hb|].
-    exists r2. rewrite E. repeat split; auto; congruence.
-  Qed.
-
-  Lemma ws_eof fuel r : (1 <= fuel)%nat -> at_bytes r [] ->
-    exists r', parse_whitespace fuel r = (Ok None, r') /\ at_bytes r' [].
-  Proof.
-    intros Hf Ha. destruct fuel as [|f]; [lia|]. cbn [Parser.parse_whitespace]. step.
-    exists r0. unfold ret. auto.
-  Qed.
-
-  (* expect_ident on matching text *)
-  Lemma expect_ident_ok ident : forall r rest, at_bytes r (ident ++ rest) ->
-    exists r', expect_ident ident r = (Ok tt, r') /\ at_bytes r' rest /\ rk r' = rk r.
-  Proof.
-    induction ident as [|c ident IH]; intros r rest Ha; cbn [expect_ident app] in *.
-    - exists r. unfold ret. auto.
-    - step. rewrite N.eqb_refl. destruct (IH r0 rest Ha0) as (r1 & E & Ha1 & Hk1).
-      exists r1. rewrite E. repeat split; auto; congruence.
-  Qed.
 
   (* '#' tokens *)
   Definition hash_arm (fuel : nat) : M token :=
@@ -263,10 +264,7 @@ Section Tokens.
     assert (Hbranch : exists r1, peek_or_null r0 = (Ok (match s' ++ rest with [] => 0 | b :: _ => b end), r1) /\
                                  at_bytes r1 (s' ++ rest) /\ rk r1 = rk r0).
     { destruct (s' ++ rest) as [|b l] eqn:El.
-      - destruct (m_peek_or_null_nil r0 Ha0) as (r1 & E & Ha1). exists r1. auto using eq_refl.
-        split; [exact E|]. split; [exact Ha1|].
-        unfold peek_or_null, bind, peek, r_peek in E. unfold at_bytes in Ha0. rewrite Ha0 in E. cbn in E.
-        destruct (rpending r0); inversion E; reflexivity.
+      - destruct (m_peek_or_null_nil r0 Ha0) as (r1 & E & Ha1 & Hk1). exists r1. auto.
       - destruct (m_peek_or_null_cons r0 b l Ha0) as (r1 & E & Ha1 & _ & Hk1). exists r1. auto. }
     destruct Hbranch as (r1 & E1 & Ha1 & Hk1). rewrite (bind_ok _ _ _ _ _ E1).
     assert (Hcond : (let nx := match s' ++ rest with [] => 0 | b :: _ => b end in
